@@ -142,6 +142,10 @@ func graft(r *rng, e *entry, s string) string {
 					at = int(slots[j].nodes[k-1].End())
 				}
 			}
+			// sometimes at the very end of the node instead: a clause accepted in a place the node layout does not expect
+			if e := int(n.End()); r.intn(3) == 0 && e >= 0 && e <= len(s) {
+				at = e
+			}
 			if at >= 0 && at <= len(s) {
 				return s[:at] + " " + texts[r.intn(len(texts))] + " " + s[at:]
 			}
